@@ -47,6 +47,9 @@ func (c *matcherCompiler) compilePGoStmtList(slist *pgo.StmtList) Matcher {
 	var list []ast.Stmt
 	if len(slist.List) > 0 {
 		list = withImplicitDots(c.fset, slist.List, c.patchStart, c.patchEnd)
+		if !isDotsStmtAt(c.fset, slist.List[0], c.patchStart) {
+			c.implicitLead = c.patchStart
+		}
 	}
 	return stmtSliceContainerMatcher{
 		Stmts: c.compile(reflect.ValueOf(list)),
